@@ -118,31 +118,53 @@ structure EncSt where
 def widthAfter (early : Bool) (nx w : Nat) : Nat :=
   if nx ≥ 2 ^ w - (if early then 1 else 0) ∧ w < 12 then w + 1 else w
 
-/-- `clearAt` = value of the next free code at which the encoder issues Clear (0: never, the table
-stays full at 4096 entries).  Returns (code, width) pairs, most recent first. -/
-def lzwStep (early : Bool) (clearAt : Nat) (st : EncSt) (c : Nat) (out : List (Nat × Nat)) :
-    EncSt × List (Nat × Nat) :=
-  match st.cur with
-  | none => ({ st with cur := some c }, out)
-  | some cur =>
-    match trieFind st.trie cur c with
-    | some code => ({ st with cur := some code }, out)
-    | none =>
-      let out := (cur, st.w) :: out
-      let w := widthAfter early st.nx st.w
-      let (trie, nx) := if st.nx < 4096 then (trieAdd st.trie cur c st.nx, st.nx + 1) else (st.trie, st.nx)
-      if clearAt ≠ 0 ∧ nx ≥ clearAt then
-        ({ trie := trieEmpty, nx := 258, w := 9, cur := some c }, (256, w) :: out)
-      else ({ trie := trie, nx := nx, w := w, cur := some c }, out)
+/-- The reference encoder, tail-recursive (inputs of tens of kilobytes): `acc` = codes emitted so far,
+most recent first.  `clearAt` = value of the next free code at which the encoder issues Clear (0: never,
+the table stays full at 4096 entries).  Returns (code, width) pairs in stream order. -/
+def lzwGoAcc (early : Bool) (clearAt : Nat) : EncSt → List (Nat × Nat) → List Nat → List (Nat × Nat)
+  | st, acc, [] =>
+    match st.cur with
+    | some cur => ((257, widthAfter early st.nx st.w) :: (cur, st.w) :: acc).reverse
+    | none => ((257, st.w) :: acc).reverse
+  | st, acc, c :: rest =>
+    match st.cur with
+    | none => lzwGoAcc early clearAt { st with cur := some c } acc rest
+    | some cur =>
+      match trieFind st.trie cur c with
+      | some code => lzwGoAcc early clearAt { st with cur := some code } acc rest
+      | none =>
+        let w := widthAfter early st.nx st.w
+        let tn := if st.nx < 4096 then (trieAdd st.trie cur c st.nx, st.nx + 1) else (st.trie, st.nx)
+        if clearAt ≠ 0 ∧ tn.2 ≥ clearAt then
+          lzwGoAcc early clearAt { trie := trieEmpty, nx := 258, w := 9, cur := some c } ((256, w) :: (cur, st.w) :: acc) rest
+        else lzwGoAcc early clearAt { trie := tn.1, nx := tn.2, w := w, cur := some c } ((cur, st.w) :: acc) rest
 
 def lzwCodes (early : Bool) (clearAt : Nat) (data : List Nat) : List (Nat × Nat) :=
-  let init : EncSt := { trie := trieEmpty, nx := 258, w := 9, cur := none }
-  let (st, out) := data.foldl (fun (acc : EncSt × List (Nat × Nat)) c => lzwStep early clearAt acc.1 c acc.2)
-    (init, [(256, 9)])
-  let (out, w) := match st.cur with
-    | some cur => ((cur, st.w) :: out, widthAfter early st.nx st.w)
-    | none => (out, st.w)
-  ((257, w) :: out).reverse
+  lzwGoAcc early clearAt { trie := trieEmpty, nx := 258, w := 9, cur := none } [(256, 9)] data
+
+/-- the same encoder written as a forward recursion (the form the round-trip proof works on;
+`lzwCodes_eq_spec` in Lemmas/C07Lzw.lean shows the two agree): codes emitted from state `st` for the
+remaining input -/
+def lzwGoEnc (early : Bool) (clearAt : Nat) : EncSt → List Nat → List (Nat × Nat)
+  | st, [] =>
+    match st.cur with
+    | some cur => [(cur, st.w), (257, widthAfter early st.nx st.w)]
+    | none => [(257, st.w)]
+  | st, c :: rest =>
+    match st.cur with
+    | none => lzwGoEnc early clearAt { st with cur := some c } rest
+    | some cur =>
+      match trieFind st.trie cur c with
+      | some code => lzwGoEnc early clearAt { st with cur := some code } rest
+      | none =>
+        let w := widthAfter early st.nx st.w
+        let tn := if st.nx < 4096 then (trieAdd st.trie cur c st.nx, st.nx + 1) else (st.trie, st.nx)
+        if clearAt ≠ 0 ∧ tn.2 ≥ clearAt then
+          (cur, st.w) :: (256, w) :: lzwGoEnc early clearAt { trie := trieEmpty, nx := 258, w := 9, cur := some c } rest
+        else (cur, st.w) :: lzwGoEnc early clearAt { trie := tn.1, nx := tn.2, w := w, cur := some c } rest
+
+def lzwCodesSpec (early : Bool) (clearAt : Nat) (data : List Nat) : List (Nat × Nat) :=
+  (256, 9) :: lzwGoEnc early clearAt { trie := trieEmpty, nx := 258, w := 9, cur := none } data
 
 /-- `w` bits of `code`, most significant first -/
 def codeBits : Nat → Nat → List Bool
